@@ -236,10 +236,15 @@ def extract_iter(
             while to_unwrap and to_unwrap[0][2] >= depth:
                 to_unwrap.popleft()
         else:
-            # Only inserting new items into the stack trace; since
-            # next_inner is in both `items` and `to_unwrap`, remove it
-            # from the latter
-            to_unwrap.popleft()
+            # Only inserting new items into the stack trace. next_inner
+            # is already at the front of `to_unwrap` (if there is one at all),
+            # so just drop it from `items`. It must not be left deeper than
+            # the inserted items, or a prune issued from within them would
+            # remove it too; but it must not be made deeper either, or its
+            # own prune would no longer reach what logically follows it.
+            items = items[:-1]
+            if to_unwrap and to_unwrap[0][2] > depth:
+                to_unwrap[0] = (*to_unwrap[0][:2], depth)
         for item in reversed(items):
             to_unwrap.appendleft((better_origin(item, None), item, depth))
 
